@@ -201,7 +201,11 @@ Proof.
         - intros m Hm. rewrite d_keys_app, in_app_iff. cbn [d_keys map fst In]. intros [H|[H|[]]]; [apply (Hacc m); [now right|assumption]|].
           subst m. tauto.
         - exists d. split; [assumption|]. rewrite Hk, d_keys_app, <- app_assoc. reflexivity. }
-      unfold adjacent. z_cases; first [exact Hadd | exact Hsame]. }
+      unfold adjacent.
+      (* == is symmetric: the operands in the model's order, whichever way the source writes them *)
+      rewrite ?(Z.eqb_sym pr cr), ?(Z.eqb_sym pp cp), ?(Z.eqb_sym (pp - 1) cp), ?(Z.eqb_sym (pp + 1) cp),
+        ?(Z.eqb_sym (pr + 1) cr), ?(Z.eqb_sym (pr - 1) cr).
+      z_cases; first [exact Hadd | exact Hsame]. }
   destruct (L names past cur 0 [] Hnd) as (d & Ed & Hk).
   - intros; cbn; tauto.
   - intros n _. unfold D. now apply d_get_dict_of.
